@@ -572,6 +572,8 @@ def check(run):
 
     run.assume("element-by-element equality of reloaded data, precision, colour order and instance placement are values and are not decided")
     _ply_layout(run, ix, tb)
+    from ..svgarc import sweep_rule
+    sweep_rule(run, ix, "R11", "C08")
     return {
         "explanation": "Interprocedural write-effect analysis of every exporter entry point (nothing rooted at the exported object is written); "
         "constant-table extraction of exporter / loader registries and of the PLY, glTF and DXF type tables (pairing, mutual inverses, "
